@@ -465,7 +465,7 @@ impl Property for C19 {
                 } else {
                     2 + d.choose("q", 7)
                 };
-                let depth = d.choose("depth", 61);
+                let depth = if d.coin("deep", 1, 12) { 200 + d.choose("depth.deep", 400) } else { d.choose("depth", 61) };
                 let preset = match d.choose("preset", 6) {
                     0 => 1,
                     1 => 2,
@@ -495,14 +495,14 @@ impl Property for C19 {
             "hidden_shift" => {
                 let maxn = if tier == Tier::Thorough { 12 } else { 10 };
                 let qubits = 6 + 2 * d.choose("hs.n", (maxn - 6) / 2 + 1);
-                Gen::HiddenShift { qubits, clifford_depth: d.choose("hs.d", 41), n_ccz: d.choose("hs.c", 5) }
+                Gen::HiddenShift { qubits, clifford_depth: if d.coin("hs.deep", 1, 10) { 100 + d.choose("hs.dd", 200) } else { d.choose("hs.d", 41) }, n_ccz: d.choose("hs.c", 8) }
             }
             "pauli_gadget" => {
                 // registers wider than a machine word in one run of eight
                 let qubits = if d.coin("pg.wide", 1, 8) { 60 + d.choose("pg.qw", 80) } else { 1 + d.choose("pg.q", 8) };
                 let maxw = 1 + d.choose("pg.max", qubits);
                 let minw = 1 + d.choose("pg.min", maxw);
-                Gen::PauliGadget { qubits, depth: d.choose("pg.d", 13), min_weight: minw, max_weight: maxw, phase_denom: 1 + d.choose("pg.den", 16) }
+                Gen::PauliGadget { qubits, depth: if d.coin("pg.deep", 1, 12) { 50 + d.choose("pg.dd", 100) } else { d.choose("pg.d", 13) }, min_weight: minw, max_weight: maxw, phase_denom: 1 + d.choose("pg.den", 16) }
             }
             "stab_state" => Gen::StabState { qubits: 1 + d.choose("ss.q", 8), hash_backend: d.coin("ss.hb", 1, 2) },
             _ => Gen::SurfaceCode { distance: 2 + d.choose("sc.d", 3), rounds: d.choose("sc.r", 4) },
